@@ -1,5 +1,8 @@
 """Which sidecar modules / bounded checks decide which property."""
 
+VAL_MODS = ["c20_common", "c20_decoder_io", "c02_common", "c02_stream", "c02_sequence_header", "c02_picture", "c02_transform_data",
+            "c09_picture_output", "c02_sequence"]
+
 PROPS = {
     "C12": dict(
         modules=["c12_quantization"],
@@ -68,7 +71,7 @@ PROPS = {
         ),
     ),
     "C02": dict(
-        modules=["c20_common", "c20_decoder_io", "c02_common", "c02_stream", "c02_sequence_header", "c02_picture", "c02_transform_data", "c02_sequence"],
+        modules=VAL_MODS,
         level="proof",
         assumptions=[
             "first sentence only (never fails with anything but a ConformanceError): every function of decoder/stream.py, sequence_header.py, picture_syntax.py, "
@@ -78,7 +81,8 @@ PROPS = {
             "second sentence (explain / offending_offset / bitstream_viewer_hint never fail): covered only by raise-site preconditions for the exceptions whose "
             "explain() constrains its arguments (ParseCodeNotAllowedInProfile, ParseCodeNotSupportedByVersion, ProfileNotSupportedByVersion, MissingNextParseOffset, "
             "and the 'level recorded first' typestate for ValueNotAllowedInLevel); the string formatting itself is NOT verified",
-            "TRUSTED: picture_decode and everything below it (idwt, clipping, offsetting, output callback) - assumed not to raise and not to touch state except current_picture",
+            "picture_decode, clip/offset, idwt_pad_removal and inverse_wavelet_transform are verified (see C09); TRUSTED below them: idwt (returns a fresh array of the padded "
+            "size, does not raise), delete_rows_after/delete_columns_after (slice deletion), the output callback (does not raise, does not touch the state)",
             "TRUSTED: Matcher (model M1/M2/M4), OrderedDict, allowed_values_for / ValueSet membership (C17, C18 bounded)",
             "resource bounds of the property are irrelevant to a proof; termination is not proved",
         ],
@@ -90,12 +94,12 @@ PROPS = {
                  "no zero divisor, no out-of-range index into coefficient arrays (via the C13 slice-geometry lemmas), no failing assert, and nothing but ConformanceError "
                  "escapes parse_stream.  parse_sequence is verified under the minimal precondition 'I/O initialised'.  Two genuine defects (D1 unbound local in parse_info, "
                  "D2 KeyError in fragment_header) were found by failing obligations, repaired in /repo and are recorded as fixed.",
-            note="Trusted: picture_decode subtree, Matcher/OrderedDict/constraint-table models, initialize_wavelet_data and set_quant_matrix (postconditions checked by "
+            note="Trusted: idwt, array deletion helpers and the output callback, Matcher/OrderedDict/constraint-table models, initialize_wavelet_data and set_quant_matrix (postconditions checked by "
                  "evaluation on every run), one assumed relational postcondition of sequence_header (same bytes => same parse).  explain()/viewer-hint string formatting not verified.",
         ),
     ),
     "C10": dict(
-        modules=["c20_common", "c20_decoder_io", "c02_common", "c02_stream", "c02_sequence_header", "c02_picture", "c02_transform_data", "c02_sequence"],
+        modules=VAL_MODS,
         only_units=["reset_state", "parse_sequence", "parse_stream", "parse_info", "init_io"],
         level="proof",
         assumptions=[
@@ -104,7 +108,7 @@ PROPS = {
             "parse_sequence is verified under the precondition 'I/O part of the state is well-formed and no recording is in progress' ONLY: every other entry it reads was "
             "written earlier in the same call, so its verdict and effects cannot depend on earlier sequences; it re-establishes that precondition on normal return",
             "determinism: the verified functions write no module-level state (purity scan, eval fact) and module tables are only read; the output callback is assumed not to touch state",
-            "NOT covered: equality of the decoded pictures themselves (picture_decode is trusted)",
+            "NOT covered: equality of the decoded sample values themselves (idwt is trusted; C11 covers the transform)",
         ],
         manifest=dict(
             category="proof",
@@ -112,11 +116,11 @@ PROPS = {
                       "definedness), pyvc + z3",
             text="Independence of concatenated sequences is proved as non-interference: parse_sequence needs nothing of the incoming state but the I/O position, "
                  "reset_state provably deletes everything else, and parse_stream's loop maintains exactly that precondition.",
-            note="Trusted as for C02 (picture_decode subtree, callback, library models).",
+            note="Trusted as for C02 (idwt, callback, library models).",
         ),
     ),
     "C01": dict(
-        modules=["c20_common", "c20_decoder_io", "c02_common", "c02_stream", "c02_sequence_header", "c02_picture", "c02_transform_data", "c02_sequence"],
+        modules=VAL_MODS,
         only_units=["parse_info", "assert_picture_number_incremented_as_expected", "assert_major_version_is_minimal", "fragment_header", "fragment_data",
                     "fragment_parse", "parse_sequence", "picture_header", "assert_parse_code_in_sequence"],
         level="proof",
@@ -136,6 +140,55 @@ PROPS = {
             technique="contract-based deductive verification: the stream-structure rules as postconditions / exact exceptional conditions of the validator functions, pyvc + z3",
             text="Necessary conditions of acceptance, for all histories of data units (unbounded): every rule listed in the assumptions holds whenever parse_sequence returns normally.",
             note="One direction only, see assumptions; level ordering patterns and header byte-identity are not established by this check.",
+        ),
+    ),
+    "C09": dict(
+        modules=VAL_MODS + ["c13_slice_sizes"],
+        only_units=["clip_component", "offset_component", "clip_picture", "offset_picture", "idwt_pad_removal", "inverse_wavelet_transform", "picture_decode",
+                    "sample_range_after_clip_and_offset", "padded_dims_cover_picture", "picture_parse", "fragment_header", "fragment_data", "fragment_parse",
+                    "parse_sequence", "picture_header"],
+        level="proof",
+        assumptions=[
+            "PROVED for all states (unbounded): picture_decode makes exactly one callback call, with state['current_picture'] (pic_num == state['picture_number'], which "
+            "picture_header / fragment_header read from the stream), state['video_parameters'] and state['picture_coding_mode']; each component has exactly "
+            "luma/color_diff height x width (set by the sequence header and picture coding mode: C02's set_coding_parameters contract); every sample v satisfies "
+            "0 <= v <= 2**depth - 1 after clip_picture + offset_picture (quantified grid contracts on the real loops)",
+            "PROVED: parse_sequence calls the callback exactly once per counted picture: g_out == old + _num_pictures_in_sequence, where the count advances once per "
+            "picture_parse and once per completed fragmented picture (first fragment counted, output when the last slice arrives; the sequence cannot end in between: C01)",
+            "TRUSTED: idwt returns a freshly allocated array of the padded picture size and does not raise (shape bounded-checked under C11); delete_rows_after / "
+            "delete_columns_after truncate to the requested size (del a[n:]); the callback does not touch the state",
+            "'in stream order' is the order of the calls, which is program order of the single verified loop",
+            "'exactly once for every complete picture the stream carries': proved relative to the validator's own count of pictures in the accepted stream",
+        ],
+        manifest=dict(
+            category="proof",
+            technique="contract-based deductive verification: quantified array contracts on the clip/offset loops, size contracts on padding removal, ghost call counter "
+                      "on the output callback with a loop invariant in parse_sequence; pyvc + z3",
+            text="For all accepted streams: the number of callback calls equals the number of pictures counted by the validator, each call carries the picture number read "
+                 "from the stream, components of exactly the header-implied size and samples within [0, 2^depth-1].",
+            note="idwt's output shape and the two array-deletion helpers are assumed contracts; sample *values* are C11's subject, not this property's.",
+        ),
+    ),
+    "C11": dict(
+        modules=["c11_lifting"],
+        level="proof",
+        assumptions=[
+            "PROVED (all even lengths, all integer contents, unbounded): lift1..lift4 against quantified contracts; a lifting step is undone by the opposite-sign step "
+            "(inverse_even / inverse_odd, any L, D, taps, S); for each of the 7 live filters, analysis followed by synthesis and synthesis followed by analysis restore "
+            "the sequence (oned_roundtrip_filter_0..6 replay the call order of the real oned_analysis / oned_synthesis, certified by the call-trace ground fact)",
+            "BOUNDED (not proved): the 2-D interleave/de-interleave loops, the level loops of dwt/idwt, the bit-shift pre/post scaling and the padding round trip - "
+            "native round trips over the stated box (bounded_checks)",
+            "BOUNDED: 'forward transform's subband shapes equal the slice geometry's subband dimensions' is checked on the same box (C13 proves the geometry itself)",
+            "sequences passed to the lifting functions are plain lists of even length (the column views used vertically are covered by the bounded part only)",
+        ],
+        manifest=dict(
+            category="proof",
+            technique="contract-based deductive verification of the lifting functions (quantified array contracts, recursive spec function for the clamped weighted sum, "
+                      "extensionality lemma by induction) + per-filter round-trip lemmas over the live filter table; 2-D assembly as a bounded native check",
+            text="The 1-D core of the wavelet transform is proved for every even length and every integer content: each lift function computes exactly the rounded, shifted "
+                 "weighted sum of its clamped neighbours on one parity, leaves the other parity untouched, and is inverted by its opposite-sign twin; for each of the 7 filters "
+                 "oned_synthesis(oned_analysis(A)) == A == oned_analysis(oned_synthesis(A)).  Swapped lifts, reversed stages or a wrong tap/shift in the table break a lemma.",
+            note="2-D assembly, shift handling, padding and shape agreement are only bounded-checked (7x7 filter pairs, depths 0..2 quick / 0..3 thorough, small sizes).",
         ),
     ),
 }
